@@ -46,7 +46,7 @@ class WorldC05(World):
               'read-absent', 'two-digit-count', 'three-digit-count', 'four-elements', 'name-15-chars',
               'name-starts-with-digit', 'zero-count-entry', 'dict-input', 'tuple-read', 'dict-read', 'crlf-newline',
               'supp-data', 'supp-txt', 'no-date', 'extreme-coefficients', 'zero-coefficient', '>=50-species',
-              'clock-jump-before-write', 'fault-did-not-fire', 'two-letter-three-digit', 'recovery-after-fault')
+              'clock-jump-before-write', 'fault-did-not-fire', 'comment-with-keyword', 'two-letter-three-digit', 'recovery-after-fault')
     REAL = ('pmutt.io.thermdat.write_thermdat / read_thermdat and helpers', 'pmutt.empirical.nasa.Nasa')
     SIMULATED = ('disk: SimFS shim over a scratch directory (open/write/close errors, ENOSPC after k chars, crash at '
                  'pre_open/post_open/mid_write/pre_close, read-open and mid-read errors)',
@@ -208,7 +208,8 @@ class WorldC05(World):
             return {'c': c, 'op': kind, 'fault': fault, 'jump': jump, 'args': {
                 'path': path, 'species': species, 'as': rng.choice(['list', 'list', 'dict', 'tuple']),
                 'write_date': rng.random() < 0.7, 'supp': supp,
-                'supp_txt': rng.choice([None, None, '! comment line', '! two\n! lines\n']),
+                'supp_txt': rng.choice([None, None, '! comment line', '! two\n! lines\n', '! Species APPENDED by J. ENDERS',
+                                        '! LEGEND: THERMO data fitted 300-1500 K\n! END of notes']),
                 'newline': rng.choice(['\n', '\n', '\r\n'])}}
         rf = [k for k in sw['fault_kinds'] if k in READ_FAULTS]
         if rf and rng.random() < sw['fault_rate']:
@@ -429,6 +430,8 @@ class WorldC05(World):
                 ctx.probe('supp-data')
             if a.get('supp_txt'):
                 ctx.probe('supp-txt')
+                if 'END' in a['supp_txt'] or 'THERMO' in a['supp_txt']:
+                    ctx.probe('comment-with-keyword')
             if not a['write_date']:
                 ctx.probe('no-date')
         if name == 'write':
